@@ -46,7 +46,11 @@ class OKPBinding(CryptographyBinding):
     def import_private_key(obj: OKPDictKey) -> PrivateOKPKey:
         crv_key: t.Type[PrivateOKPKey] = PRIVATE_KEYS_MAP[obj["crv"]]
         d = urlsafe_b64decode(to_bytes(obj["d"]))
-        return crv_key.from_private_bytes(d)
+        key = crv_key.from_private_bytes(d)
+        x = urlsafe_b64decode(to_bytes(obj["x"]))
+        if key.public_key().public_bytes(Encoding.Raw, PublicFormat.Raw) != x:
+            raise ValueError('"x" does not match the private key "d"')
+        return key
 
     @staticmethod
     def import_public_key(obj: OKPDictKey) -> PublicOKPKey:
